@@ -20,7 +20,7 @@ for kv in sys.argv[7:]:
         env[k] = v
 subprocess.run([os.path.join(root, "check"), pid, "quick", "--shards", "8", "--scale", scale], env=env, stdout=subprocess.DEVNULL, stderr=subprocess.DEVNULL)
 best = None
-for f in glob.glob(os.path.join(d, "*-min.json")):
+for f in glob.glob(os.path.join(d, "*.json")):
     doc = json.load(open(f))
     if match and match not in doc.get("why", ""):
         continue
